@@ -417,20 +417,30 @@ impl TypedStmt {
                 vec![]
             }
             StmtEnum::VarAssign(identifier, accessors, value) => {
+                // The indices and the value can assign to the variable themselves, so they are
+                // evaluated before the variable is read:
+                let mut indices = Vec::with_capacity(accessors.len());
+                for (access, _) in accessors {
+                    indices.push(match access {
+                        Accessor::ArrayAccess { index, .. } => index.compile(prg, env, circuit),
+                        _ => vec![],
+                    });
+                }
+                let mut value = value.compile(prg, env, circuit);
                 let mut collection = env.get(identifier).unwrap();
                 let mut accessed = vec![];
                 enum Assign {
                     Array(Vec<usize>, (usize, usize), Vec<usize>),
                     Tuple(Vec<usize>, usize, usize),
                 }
-                for (access, _) in accessors {
+                for ((access, _), index) in accessors.iter().zip(indices) {
                     match access {
-                        Accessor::ArrayAccess { array_ty, index } => {
+                        Accessor::ArrayAccess { array_ty, .. } => {
                             let array_before_access = collection.clone();
                             let (elem_bits, num_elems) = array_ty
                                 .unwrap_array_size(prg, circuit.const_sizes())
                                 .expect("Found a non-array value in an array access expr: {ty}");
-                            let mut index = index.compile(prg, env, circuit);
+                            let mut index = index;
                             let index_bits = Type::Unsigned(UnsignedNumType::Usize)
                                 .size_in_bits_for_defs(prg, circuit.const_sizes());
                             extend_to_bits(
@@ -546,7 +556,6 @@ impl TypedStmt {
                         }
                     }
                 }
-                let mut value = value.compile(prg, env, circuit);
                 for assign in accessed.into_iter().rev() {
                     match assign {
                         Assign::Array(mut array, (elem_bits, size), mut index) => {
